@@ -83,6 +83,20 @@ func Harness_C14_Artifact() {
 				panic(err)
 			}
 		}
+		if verif.Param("GEN", 1) == 1 && verif.Choose("recovered-under-a-new-operator-id", 2) == 1 {
+			// the state above belongs to a previous operator: it checkpoints, and a replacement with a
+			// new id (= a new directory) recovers from that checkpoint, writes once more and takes the
+			// checkpoint the savepoint is made of. It still references the old operator's files.
+			if err := db.WaitOnTasks(); err != nil {
+				panic(err)
+			}
+			h0, err := db.Checkpoint(6)()
+			verif.Assert(err == nil, "dkv-checkpoint-succeeds")
+			dir = []string{"w/op1b", "w/op2b"}[o]
+			db = dkv.Open(dkv.DBOptions{FileSystem: mem.WithWorkingDir(dir), MemTableSize: 20, TargetFileSize: 64, L0TableNumCompactionTrigger: 2}, []recovery.CheckpointHandle{h0})
+			vals[0] = verif.Bytes("v", 1)
+			db.Put(verifSPKeys[0], vals[0])
+		}
 		h, err := db.Checkpoint(7)()
 		verif.Assert(err == nil, "dkv-checkpoint-succeeds")
 		ops = append(ops, opState{h, vals, dir})
